@@ -84,7 +84,7 @@ def gen_plan(prop, run_seed, tier):
                 seed=s.randrange(2**31), chol_rate=f.choice([0.0, 0.0, 0.1]), extreme_rate=f.choice([0.0, 0.0, 0.05, 0.3]),
                 fault_seed=f.randrange(2**31),
                 cuts=(sorted(w.sample(range(0, n_rows + 1), min(n_rows + 1, w.randint(1, 2)))) if w.random() < 0.35 and n_rows else []),
-                cut_gap=w.randint(1, 2))
+                cut_gap=w.randint(1, 2), reset_at=([s.randint(1, 4)] if s.random() < 0.3 else []))
 
 
 def _screens(plan):
@@ -588,6 +588,11 @@ def _run(plan, log, stats, violation):
                 mon.train = part(0, have)
                 stats.probe("observations_added_between_steps")
                 mon.flags.add("incremental-data")
+            if step > 0 and step in plan.get("reset_at", []):
+                # the model object is reused for another sampling run: sampling.sample() resets it first
+                model.reset_model()
+                stats.probe("model_reset_between_steps")
+                mon.flags.add("reset")
             mon.blocks_seen = []
             mon.mag_max = None  # the cache is rebuilt from scratch at the start of every step
             try:
